@@ -176,10 +176,15 @@ MUTANTS = [
          old="				res = func(vals)\n				out.append(res)", new="				res = vals[0] if len(vals) == 1 else func(vals)\n				out.append(res)",
          rules=["c.aggregator-applied"]),
     dict(id="window-helper-extra-flag", module="table",
+         edits=[("table", "		def compute_group_values(col, fn):\n			data = col._underlying\n			out = {}\n			for key, rows in group_items:\n",
+                 "		def compute_group_values(col, fn, passthrough=False):\n			data = col._underlying\n			out = {}\n			for key, rows in group_items:\n"
+                 "				if passthrough and len(rows) == 1:\n					out[key] = data[rows[0]]\n					continue\n", 1),
+                ("table", "				gm = compute_group_values(col, fn)\n", "				gm = compute_group_values(col, fn, passthrough=True)\n", 6)],
+         rules=["c.aggregator-applied"], desc="a flag that lets one-row partitions by-pass the reducer, switched on at the call sites"),
+    dict(id="twin-window-helper-unused-flag", module="table", twin=True,
          old="		def compute_group_values(col, fn):\n			data = col._underlying\n			out = {}\n			for key, rows in group_items:\n",
          new="		def compute_group_values(col, fn, passthrough=False):\n			data = col._underlying\n			out = {}\n			for key, rows in group_items:\n"
-             "				if passthrough and len(rows) == 1:\n					out[key] = data[rows[0]]\n					continue\n",
-         rules=["c.aggregator-applied"]),
+             "				if passthrough and len(rows) == 1:\n					out[key] = data[rows[0]]\n					continue\n"),
     dict(id="compare-kernel-drops-none-guard", module=_V,
          old="		result_values = tuple(False if x is None else bool(op(x, other)) for x in self)",
          new="		result_values = tuple(bool(op(x, other)) for x in self)", rules=["a.compare-kernels"]),
